@@ -28,7 +28,7 @@ use std::thread;
 
 use cfg_if::cfg_if;
 use crossbeam_channel as cbc;
-use libfs::copy_node;
+use libfs::{copy_node, is_same_file};
 use log::{error, info};
 use blocking_threadpool::{Builder, ThreadPool};
 
@@ -246,6 +246,12 @@ fn dispatch_worker(file_q: cbc::Receiver<Operation>, stats: &Arc<dyn StatusUpdat
                 if to.exists() {
                     if config.no_clobber {
                         return Err(XcpError::DestinationExists("Destination file exists and --no-clobber is set.", to).into());
+                    }
+                    // Never replace a node by itself (the same inode
+                    // reached through an alias): removing the
+                    // destination would remove the source.
+                    if is_same_file(&from, &to)? {
+                        return Err(XcpError::InvalidDestination("Source and destination are the same file.").into());
                     }
                     remove_file(&to)?;
                 }
